@@ -6,11 +6,11 @@ CONSTANTS EPs      \* names of the endpoints used by this instance (keys of Endp
 \* The fixed naming shared with the harness (its scale map gives the concrete values):
 \*   i0 = 126.255.255.255  i1 = 127.0.0.1  i2 = 127.0.0.2  i3 = 127.0.0.3  i4 = 127.0.0.4
 \*   i8 = 127.255.255.255  i9 = 128.0.0.0  j0 = 127.0.0.0   i6 = ::1   i7 = ::2   i5 = ::
-\*   a2 = 127.0.0.2   a6 = ::1   n31 = 127.0.0.2/31   n32 = 127.0.0.3/32   n8 = 127.0.0.0/8   n128 = ::1/128
+\*   a2 = 127.0.0.2   a6 = ::1   n31 = 127.0.0.2/31   n32 = 127.0.0.3/32   n8 = 127.0.0.0/8   n128 = ::1/128   n0 = ::/0
 \*   n31h = 127.0.0.3/31 and n8h = 127.0.0.2/8: the subnets n31 / n8 given with host bits set (same rule: Canon)
 MatchAll == [a2 |-> {"i2"}, a6 |-> {"i6"}, n31 |-> {"i2", "i3"}, n32 |-> {"i3"},
              n8 |-> {"j0", "i1", "i2", "i3", "i4", "i8"}, n128 |-> {"i6"},
-             n31h |-> {"i2", "i3"}, n8h |-> {"j0", "i1", "i2", "i3", "i4", "i8"}]
+             n31h |-> {"i2", "i3"}, n8h |-> {"j0", "i1", "i2", "i3", "i4", "i8"}, n0 |-> {"i5", "i6", "i7"}]
 MCMatch == [r \in IPRules |-> MatchAll[r]]
 CanonAll == [n31h |-> "n31", n8h |-> "n8"]
 MCCanon == [r \in Rules |-> IF r \in DOMAIN CanonAll THEN CanonAll[r] ELSE r]
@@ -22,11 +22,12 @@ MCEndpoints == {EndpointTable[n] : n \in EPs}
 \* replay graphs leave the ghosts (must, att.cont) out of the state identity: the harness keeps its own
 \* ledger of returned calls and of the rules obliged throughout an attempt
 CallSt == <<call.kind, call.r, call.pc>>
-AttSt == <<att.dir, att.peer, att.ip, att.tpt, att.k>>
+AttSt == <<att.dir, att.peer, att.ip, att.tpt, att.k, att.pre, att.opt>>
 St == <<mem, disk, up, CallSt, AttSt, Shown>>
 ViewNoGhost == <<mem, disk, up, CallSt, AttSt>>
 EmitEdge == PrintT(<<"VFEDGE", ToJson([s |-> St, op |-> op', t |-> St'])>>)
 Conf == [match |-> MCMatch, canon |-> MCCanon, peers |-> PeerRules, addrs |-> AddrRules, subnets |-> SubnetRules,
-         endpoints |-> MCEndpoints, exclusive |-> Exclusive, faults |-> Faults]
+         endpoints |-> MCEndpoints, exclusive |-> Exclusive, faults |-> Faults, pres |-> Pres, opts |-> Opts,
+         tpts |-> Tpts]
 MCInit == Init /\ PrintT(<<"VFINIT", ToJson(St)>>) /\ PrintT(<<"VFCONF", ToJson(Conf)>>)
 =============================================================================
